@@ -191,6 +191,7 @@ func (n *Node) boot() {
 	n.inc++
 	n.up = true
 	n.crashing = false
+	n.resetPending = false // a Reset scheduled by the previous incarnation died with it
 	n.crashAfterSends = -1
 	if n.scriptCrashSends > 0 && n.inc == 1 {
 		n.crashAfterSends = n.scriptCrashSends
